@@ -780,7 +780,8 @@ func (g *Gen) callWrites(c *ssa.CallCommon, cells map[*ssa.Alloc]bool, heaps map
 			}
 		}
 	default:
-		heaps["*"] = true
+		// unknown function value (A-CALLBACK): writes memory reachable from its arguments
+		g.extWrites(c, heaps)
 	}
 }
 
